@@ -1452,8 +1452,17 @@ impl<R: Read> Base64Decoder<R> {
             self.buffer_size = 0;
         }
         while self.buffer_size + 3 <= self.buffer.len() {
+            // reader is allowed to return less data than requested, keep reading
+            // until the whole group is available or the end of input is reached
             let mut input = [0u8; 4];
-            let size = self.read.read(&mut input)?;
+            let mut size = 0;
+            while size < input.len() {
+                let read_size = self.read.read(&mut input[size..])?;
+                if read_size == 0 {
+                    break;
+                }
+                size += read_size;
+            }
             if size == 0 {
                 break;
             } else if size != 4 {
